@@ -10,7 +10,7 @@ from urllib.parse import quote, unquote, urlsplit
 from . import sexp
 
 SAFE_NAMES = ["pasta", "a b", "Mains", "é", "x_y", "q", "myDir", "BIG_NAME", "ça va", "日本", "side-dish", "v2"]
-URL_NAMES = ["a#b", "what?", "50%25", "r&b", "it's", "say \"hi\"", "100%"]
+URL_NAMES = ["a#b", "what?", "50%25", "r&b", "it's", "say \"hi\"", "100%", "sides:cold", "a;b=c", "x+y", "q@home"]
 
 
 def scratch_root():
